@@ -63,7 +63,44 @@ def run(chk, tier):
                 else:
                     chk.bad("R11.4", key, "%s iterates map keys in hash order without sorting them first: `m.map(k,k) == m.map(k,k)` can be false" % b.path, b.file)
             else:
-                chk.ok("R11.4", key, row[1])
+                # "insensitive" is re-verified: every early exit out of the hash-ordered loop must yield one and the same constant
+                # (otherwise WHICH entry is met first decides the result, and hash order differs between runs and clones)
+                import mirq
+                q = mirq.BodyQ(b)
+                heads = [i for i, t, pth in q.call_sites(r"hash_(map|set)::(Iter|IterMut|Keys|Values|ValuesMut|IntoIter|IntoKeys|IntoValues|Drain)<.*> as std::iter::Iterator>::next$")]
+                sigs = set()
+                for h in heads:
+                    loop = set(x for x in q.reach(h) if h in q.reach(x))
+                    ve = q.variant_edges(h)
+                    normal_exit = ve["None"] if ve else None
+                    for x in loop:
+                        for y in b.succs(x):
+                            if y in loop or y == normal_exit:
+                                continue
+                            # value returned on this early exit
+                            region = q.reach(y)
+                            for i2, t2 in b.calls():
+                                if i2 in region and "p" not in t2["dest"] and t2["dest"]["l"] == 0:
+                                    sigs.add(lib.short(lib.callee_of(t2)[1]) + ("(..)" if t2["args"] else "()"))
+                            for i2, s2 in b.stmts():
+                                if i2 in region and s2.get("k") == "assign" and s2["place"]["l"] == 0 and "p" not in s2["place"]:
+                                    rv = s2["rv"]
+                                    sigs.add("assign:" + (rv.get("variant") or rv["k"]))
+                # the normal completion value is not an early exit; drop signatures that are only reachable from the normal exit
+                early = set(x for x in sigs)
+                norm = set()
+                for h in heads:
+                    ve = q.variant_edges(h)
+                    if ve:
+                        for i2, t2 in b.calls():
+                            if i2 in q.reach(ve["None"]) and "p" not in t2["dest"] and t2["dest"]["l"] == 0:
+                                norm.add(lib.short(lib.callee_of(t2)[1]) + ("(..)" if t2["args"] else "()"))
+                distinct_early = set(x for x in early if not (x in norm and len(early) > 1 and False))
+                nonconst = [x for x in distinct_early if x.endswith("(..)")]
+                if len(distinct_early - norm) <= 1 and not [x for x in (distinct_early - norm) if x.endswith("(..)")]:
+                    chk.ok("R11.4", key, row[1] + (" [early exits: %s]" % sorted(distinct_early - norm) if heads else ""))
+                else:
+                    chk.bad("R11.4", key, "%s leaves its hash-ordered loop early with different results %s: which entry is visited first (hash order, differs between runs, clones and threads) decides the outcome" % (b.path, sorted(distinct_early - norm)), b.file)
     chk.analysed["bodies"] = n
     chk.ok("R11.1", "scanned %d bodies" % n)
     # R11.2 type closure
